@@ -571,7 +571,7 @@ func replay(c *vlib.Ctx, w string) {
 func init() {
 	vlib.Register(&vlib.Check{
 		ID: "C16", Engine: "E2",
-		Rule: "arrays of every length n in 0..N (elements are distinct strings e0.. or distinct integers 100..) are injected as typed stdin in json, yaml and jsonl and looked up with `[k]`, `[[/k]]` and `![ k ]` for every k in [-K, K]; every ordered pair (i,j) in [-P,P]^2 on arrays of length 0..4 through `[i j]` / `![ i j ]`; (thorough) every index triple on a 3-array; every map over the key set {a,A,b} (all 8 subsets; string, integer and (json) object values) in json and yaml with the lookups a, A, b, c through `[key]`, `[[/key]]`, `![ key ]` and all key pairs. quick: N=12 K=16 P=4; thorough: N=20 K=30 P=6. Oracle: -n <= k < n => exit 0 and the printed element equals element k (negative from the end); otherwise non-zero exit and a message on stderr; never 'panic caught' / 'Murex has crashed' text; map key present exactly => its value, key with no spelling variant present => clean error. non-trivial = every case except a single non-negative in-range `[k]` on an array (i.e. negative, out-of-range, multi-index, `![`, `[[`, and map lookups)",
+		Rule:   "arrays of every length n in 0..N (elements are distinct strings e0.. or distinct integers 100..) are injected as typed stdin in json, yaml and jsonl and looked up with `[k]`, `[[/k]]` and `![ k ]` for every k in [-K, K]; every ordered pair (i,j) in [-P,P]^2 on arrays of length 0..4 through `[i j]` / `![ i j ]`; (thorough) every index triple on a 3-array; every map over the key set {a,A,b} (all 8 subsets; string, integer and (json) object values) in json and yaml with the lookups a, A, b, c through `[key]`, `[[/key]]`, `![ key ]` and all key pairs. quick: N=12 K=16 P=4; thorough: N=20 K=30 P=6. Oracle: -n <= k < n => exit 0 and the printed element equals element k (negative from the end); otherwise non-zero exit and a message on stderr; never 'panic caught' / 'Murex has crashed' text; map key present exactly => its value, key with no spelling variant present => clean error. non-trivial = every case except a single non-negative in-range `[k]` on an array (i.e. negative, out-of-range, multi-index, `![`, `[[`, and map lookups)",
 		Run:    run,
 		Replay: replay,
 		Assumptions: []string{
